@@ -307,6 +307,10 @@ func runC18(c *core.Ctx) error {
 		c.Report(cs, rxEval(cs))
 	}
 	c.Sample(rxCase{Text: `/a\/b/`, DelimOK: true, PatEnd: 5})
+	// call histories (SchemaApi_regex.cfg): results do not depend on earlier calls, returned values stay intact
+	if err := runObjHistories(c, objKinds["regex"], objPairs([]string{"/^(ab|cdef|ghijkl|[0-9]{8})$/", "/a+b/", "/[a-z]{3,5}/", "/a/ x", "/(/", "//", "/a\\/b/", "/x|yy|zzz|wwww/", "/^[A-Z][a-z]{2,9}$/", "", "/a"}, c.Pick(11, 44), c.Seed)); err != nil {
+		return err
+	}
 	c.Set("rule", "every class string <= N of the TLC-dumped RegexDelim automaton, class 'other' expanded over {a ( ) [ ] * + . |} (exhaustively when small, seeded sample otherwise), plus generated well-formed patterns with trailing text; each replayed: Check/Len/Pattern/Example/GetAST/OpenAPI pattern/referring schema. distinct_nontrivial = distinct (automaton state, text) pairs")
 	c.Assume = append(c.Assume, "validity and matching of regular expressions are Go regexp's (DESIGN §2.5)",
 		"referring-schema values are judged only where anchored and unanchored matching agree")
@@ -332,6 +336,9 @@ func rxPatEnd(text string) int {
 func init() {
 	register(&core.Check{ID: "C18", Level: "model_checking", Run: runC18,
 		Replay: func(c *core.Ctx, raw json.RawMessage) ([]core.Finding, error) {
+			if fs, ok := objReplayCase(raw); ok {
+				return fs, nil
+			}
 			var cs rxCase
 			if err := json.Unmarshal(raw, &cs); err != nil {
 				return nil, err
